@@ -162,6 +162,21 @@ Theorem C01_D1_unfixed_refuted : forall dp di t st,
   packet_port_scan cyclic_groups chunk_size false dp di t st [] = [].
 Proof. intros. reflexivity. Qed.
 
+(* the defect D2, on the chain as it was wired (stdin handed to every reader without a recorder): with two
+   ports the second pass over the address list finds stdin empty - one probe where two are due *)
+Theorem C01_D2_unfixed_refuted : exists f inp,
+  let g := GIPPort (GFileIPs GOpenStdinRaw) GPorts in
+  f_stdin f = true /\
+  option_map (fun o => length (probes (events o))) (interp_req cyclic_groups f inp 0 g (i_ports inp)) = Some 1%nat /\
+  length (denote_file_ports (i_file inp) (i_ports inp) {| st_filter := None; st_cache := None |}) = 2%nat.
+Proof.
+  exists {| f_file := true; f_ports := true; f_exclude := false; f_cache := false; f_live := false; f_stdin := true |}.
+  exists {| i_dst := None; i_file := [LJson (Some (Some [10;0;0;1])) None]; i_openable := true; i_nets := [];
+            i_cache := {| ac_entries := []; ac_gateway := [] |}; i_ports := [(80, 81)];
+            i_dp := fun _ _ => (1, 1); i_di := fun _ _ => (1, 1) |}.
+  vm_compute. repeat split.
+Qed.
+
 (* non-vacuity: concrete instances *)
 Example C01_ex_subnet :
   probes (packet_port_scan cyclic_groups 200 true (fun _ _ => (5, 7)) (fun _ _ => (3, 9))
@@ -227,3 +242,4 @@ Print Assumptions C01_portless_file.
 Print Assumptions C01_chunking.
 Print Assumptions C01_chunks_partition.
 Print Assumptions C01_D1_unfixed_refuted.
+Print Assumptions C01_D2_unfixed_refuted.
